@@ -19,6 +19,16 @@ fn main() {
     }
     s += "        _ => None,\n    }\n}\n";
     fs::write(Path::new(&env::var("OUT_DIR").unwrap()).join("engines.rs"), s).unwrap();
+    // node kinds in the order of the `impl IAstNode for X` blocks of /repo/src/parser/ast.rs
+    // (the same order translator T5 uses for Gen/AstKinds.v)
+    let ast = fs::read_to_string("/repo/src/parser/ast.rs").unwrap();
+    let mut kinds = Vec::new();
+    for part in ast.split("impl IAstNode for ").skip(1) {
+        let name: String = part.chars().take_while(|c| c.is_alphanumeric() || *c == '_').collect();
+        kinds.push(format!("\"{}\"", name));
+    }
+    fs::write(Path::new(&env::var("OUT_DIR").unwrap()).join("ast_kinds.rs"), format!("[{}]", kinds.join(", "))).unwrap();
+    println!("cargo:rerun-if-changed=/repo/src/parser/ast.rs");
     println!("cargo:rerun-if-changed=src");
     println!("cargo:rustc-check-cfg=cfg(gold_lsp_verif)");
 }
